@@ -1,7 +1,7 @@
 ---------------------------- MODULE Trace_Batch ----------------------------
 (***************************************************************************)
 (* Trace validation for C12 and C16.  A session is one batch run:          *)
-(*   [tid, names, kinds, file, solos, out, report, readback, cli]          *)
+(*   [tid, names, kinds, file, tgs, solos, out, report, readback, cli]     *)
 (* solos[i] = [pr, un]: what solving game i ALONE on a fresh deep copy     *)
 (*   gives with / without pruning: [ok, err, fields]                       *)
 (* out = [crashed, etype, entries]; entry = [key, msg, none, fields, text] *)
@@ -25,6 +25,16 @@ KTag == IF Collides THEN "K2:" ELSE ""
 At == " game=" \o S.names[pos]
 
 Entries == S.out.entries
+
+\* beyond the listed properties (prefix X.): the two counters of a solved entry are the numbers of
+\* states and of transitions of the description (C12 / C16 only relate them to the solo run / the file)
+RECURSIVE SumLens(_, _)
+SumLens(rows, i) == IF i = 0 THEN 0 ELSE Len(rows[i].items) + SumLens(rows, i - 1)
+CountClauses(e) ==
+    LET rows == S.tgs[pos].transition_list.items
+    IN  IF e.msg # "Game solved" \/ Collides THEN {}
+        ELSE (IF e.text.n_states = ToString(Len(rows)) THEN {} ELSE {"X.Counts states" \o At})
+             \cup (IF e.text.n_transitions = ToString(SumLens(rows, Len(rows))) THEN {} ELSE {"X.Counts transitions" \o At})
 HasEntry == k <= Len(Entries)
 
 Crash ==
@@ -40,6 +50,7 @@ StepPruned ==
                 (IF ~HasEntry THEN {KTag \o "C12.BothEntries missing pruned entry" \o At}
                  ELSE LET e == Entries[k]
                       IN  (IF e.key = S.names[pos] THEN {} ELSE {KTag \o "C12.KeyOrder" \o At})
+                          \cup (IF e.key = S.names[pos] THEN CountClauses(e) ELSE {})
                           \cup (IF sp.ok
                                 THEN (IF e.msg = "Game solved" /\ e.fields = sp.fields /\ ~e.none THEN {}
                                       ELSE {KTag \o "C12.EntryEqualsSolo pruned" \o At})
@@ -56,6 +67,7 @@ StepUnpruned ==
                 (IF ~HasEntry THEN {KTag \o "C12.BothEntries missing unpruned entry" \o At}
                  ELSE LET e == Entries[k]
                       IN  (IF e.key = S.names[pos] \o "_no_prune" THEN {} ELSE {KTag \o "C12.KeyOrder" \o At})
+                          \cup (IF e.key = S.names[pos] \o "_no_prune" THEN CountClauses(e) ELSE {})
                           \cup (IF hadSolution
                                 THEN (IF su.ok
                                       THEN (IF e.msg = "Game solved" /\ e.fields = su.fields /\ ~e.none THEN {}
